@@ -1,4 +1,4 @@
-HOOK_COMMITS = ["27ad88b", "955c941", "4436111", "27d3bdc"]
+HOOK_COMMITS = ["27ad88b", "955c941", "4436111", "27d3bdc", "cfd1fa3"]
 NOTES = ("Machine-checked proof in Lean 4 over a hand-written executable model of go-jsonrpc, tied to /repo on every run by "
          "(a) facts regenerated from the Go source with obligations re-checked by Lean and (b) a correspondence harness that "
          "runs the real library and the model's executable definitions on the same cases / replays implementation traces "
@@ -8,6 +8,10 @@ TB = ("Trusted: Lean 4.33.0 kernel (axioms propext, Classical.choice, Quot.sound
       "reading of the property as theorem statements and monitors, the fact extractor and its expectations, the correspondence "
       "harness (sampled coverage bounds the assurance that the model is the code). Modelled, not verified: Go runtime and "
       "scheduler, encoding/json, net/http, gorilla/websocket, TCP.")
+
+CORRTIE = ("Tie: regenerated skeletons of handleWsConn/tryReconnect/closeInFlight/handleResponse/doRequest/nextMessage/readFrame + the client "
+           "endpoint's hook trace of every scenario replayed through the model (events logged inside their critical sections; tau-saturation for "
+           "channel rendezvous) + the property's clock-free monitors on what the callers observed.")
 
 CHECKS = [
  {"property_id": "C09",
@@ -140,6 +144,44 @@ CHECKS = [
   "design_ref": "DESIGN.md §6 C08",
   "note": TB + " PARTIAL: 'eventually closed' = enabledness + fairness; observed with time-outs. F12 (sink registered after the sweep) is decided by the C03 scenarios: the subscribing call then fails and no channel is handed out.",
   "technique": "Lean 4 theorems (prefix invariant, close-once, crash-freedom by induction over events) + regenerated skeleton facts + hook-trace inclusion"},
+ {"property_id": "C02",
+  "text": "Theorems over the correlation model (callers, main loop, frame executor, sweep, reconnect, exit; one event per hook site; ~35 "
+          "invariant clauses preserved by all 24 events): whatever a caller takes from its ready channel is the connection error, its own "
+          "notification ack, or a response frame carrying exactly its own id; a caller receives at most once and the channel never holds more "
+          "than one message; a response whose id is registered is handed to exactly the attempt registered under it, unknown ids are dropped "
+          "without touching any attempt; one-shot transports accept a response only if its normalised id equals the request's. "
+          + CORRTIE + " Scenarios: every completion permutation for N<=3 (4, 5 sampled), random orders up to 25 callers, HTTP server answering with foreign ids.",
+  "design_ref": "DESIGN.md §6 C02",
+  "note": TB + " Stated bound: ids are distinct below 2^53 calls per client.",
+  "technique": "Lean 4 theorems (invariants by induction over events, grind-assisted) + regenerated skeleton facts + hook-trace inclusion"},
+ {"property_id": "C03",
+  "text": "Theorems: in every reachable state an id-bearing attempt that was taken and has no answer yet is being handled by the main loop, "
+          "or registered in inflight under its own id, or held by the frame executor — there is no other place (ownership); during the "
+          "reconnect window the connection is marked bad on both detection paths, the fail-fast check can only come out bad, and a request "
+          "is registered only after a good check with no redial in progress; the sweep leaves every swept attempt with an answer and its "
+          "sends can never block; entries belong to the current epoch; no foreign results under faults. " + CORRTIE +
+          " Scenarios: fault kind x 5 byte positions x direction x frame x call timing (before noticed / in the window / after recovery), "
+          "double faults, and two gated schedules (sweep versus executor; a late delete versus a retried call).",
+  "design_ref": "DESIGN.md §6 C03",
+  "note": TB + " PARTIAL: 'every call returns' = ownership + enabledness + scheduler fairness; observed with the clock-free oracle (a later probe round-tripped).",
+  "technique": "Lean 4 theorems (ownership invariant by induction over events) + regenerated skeleton facts + hook-trace inclusion + gated schedules"},
+ {"property_id": "C04",
+  "text": "Theorems: under every event list at most one request frame is written per attempt and its handler runs at most once; whenever "
+          "the executor holds a genuine response for an attempt, that attempt was executed exactly once; a notification is never registered, "
+          "never receives a response frame; no step other than the main loop's handling of a fresh request writes a request frame "
+          "(reconnect and exit never re-send). " + CORRTIE + " Scenarios: the C03 grid with per-token execution counters and per-token frame counts at the proxy.",
+  "design_ref": "DESIGN.md §6 C04",
+  "note": TB + " A retry-tagged call is a sequence of attempts (contrast case); the regenerated retry conjuncts pin when a new attempt starts.",
+  "technique": "Lean 4 theorems (counting invariants) + regenerated facts + hook-trace inclusion + wire counts"},
+ {"property_id": "C18",
+  "text": "Theorems: no step of the exit path can be disabled by a caller, the frame executor or the peer (the sweep's sends are non-blocking, "
+          "clearing is enabled once every entry was visited); once exiting is closed nothing is registered or can be registered or taken, every "
+          "taken attempt has an answer or is held by the executor whose send is enabled, every untaken attempt can return the exiting error; "
+          "no swap without a running redial. " + CORRTIE + " Scenarios: the closer fired at sampled occurrences of 25 yield-point sites of a mixed workload, "
+          "the sweep-versus-executor schedule with the closer as observer, closers of one-shot clients.",
+  "design_ref": "DESIGN.md §6 C18",
+  "note": TB + " PARTIAL: completion = safety form + fairness; observed with time-outs.",
+  "technique": "Lean 4 theorems (exit-path enabledness, post-exit invariant) + regenerated skeleton facts + hook-trace inclusion + gated closes"},
 ]
 
 _PENDING = "check under construction in this round (see DESIGN.md §13 build order); not claimed until its theorem file, tie and unchanged-tree sweep exist"
